@@ -42,4 +42,5 @@ func main() {
 	genKeys()
 	genLockFacts()
 	genAcs()
+	genParserMode()
 }
